@@ -12,11 +12,13 @@ function by the `c06.*` correspondence streams).  They hold for every world: any
 namespace CV.Include
 open CV CV.Val
 
-/-! ## conflict detection (`importResource`, the `reflect.DeepEqual` test) -/
+variable {s : Val → Val → Bool} {S : String → Val → Val → Bool}
+
+/-! ## conflict detection (`importResource`; `s` / `S` is the sameness test: `reflect.DeepEqual` or `sameResource`) -/
 
 /-- the loop never panics and its only error is the conflict -/
 theorem importEntries_outcome (frm to : KVs) :
-    (∃ r, importEntries frm to = .ok r) ∨ importEntries frm to = .err "conflict" := by
+    (∃ r, importEntries s frm to = .ok r) ∨ importEntries s frm to = .err "conflict" := by
   induction frm generalizing to with
   | nil => exact .inl ⟨to, rfl⟩
   | cons p rest ih =>
@@ -31,7 +33,7 @@ theorem importEntries_outcome (frm to : KVs) :
 /-- **import_conflict_iff** (one section): importing is a conflict error exactly when some imported name is
 already defined with a non-equal value -/
 theorem importEntries_conflict_iff (frm to : KVs) (hnd : (frm.map Prod.fst).Nodup) :
-    importEntries frm to = .err "conflict" ↔ ∃ n a c, (n, a) ∈ frm ∧ lookup n to = some c ∧ a ≠ c := by
+    importEntries s frm to = .err "conflict" ↔ ∃ n a c, (n, a) ∈ frm ∧ lookup n to = some c ∧ s a c = false := by
   induction frm generalizing to with
   | nil => simp [importEntries]
   | cons p rest ih =>
@@ -44,9 +46,8 @@ theorem importEntries_conflict_iff (frm to : KVs) (hnd : (frm.map Prod.fst).Nodu
     cases hl : lookup name to with
     | some c =>
       simp only
-      cases hv : veq a c with
+      cases hv : s a c with
       | true =>
-        have hac : a = c := (veq_iff a c).mp hv
         simp only [if_true]
         rw [ih to hnd.2]
         constructor
@@ -56,12 +57,11 @@ theorem importEntries_conflict_iff (frm to : KVs) (hnd : (frm.map Prod.fst).Nodu
           rcases List.mem_cons.mp hm with h1 | h2
           · cases h1
             rw [hl] at hl'; cases hl'
-            exact absurd hac hne'
+            rw [hv] at hne'; cases hne'
           · exact ⟨n, a', c', h2, hl', hne'⟩
       | false =>
-        have hac : a ≠ c := (veq_false_iff a c).mp hv
         simp only [Bool.false_eq_true, if_false, true_iff]
-        exact ⟨name, a, c, List.mem_cons_self, hl, hac⟩
+        exact ⟨name, a, c, List.mem_cons_self, hl, hv⟩
     | none =>
       simp only
       rw [ih _ hnd.2]
@@ -78,7 +78,7 @@ theorem importEntries_conflict_iff (frm to : KVs) (hnd : (frm.map Prod.fst).Nodu
 
 /-- a successful import is the union: names of the including model keep their value, new names get the
 imported value -/
-theorem importEntries_lookup (frm to r : KVs) (h : importEntries frm to = .ok r) (k : String) :
+theorem importEntries_lookup (frm to r : KVs) (h : importEntries s frm to = .ok r) (k : String) :
     lookup k r = match lookup k to with
       | some c => some c
       | none => lookup k frm := by
@@ -112,38 +112,42 @@ theorem importEntries_lookup (frm to r : KVs) (h : importEntries frm to = .ok r)
         | some c' => rfl
         | none => simp [lookup, hk]
 
-/-- **import_identical_ok**: resources that are already there with an equal value are accepted and change nothing -/
-theorem importEntries_identical_ok (frm to : KVs) (h : ∀ n a, (n, a) ∈ frm → lookup n to = some a) :
-    importEntries frm to = .ok to := by
+/-- **import_identical_ok**: resources that are already there with the same value (`s a c`) are accepted and change nothing -/
+theorem importEntries_identical_ok (frm to : KVs)
+    (h : ∀ n a, (n, a) ∈ frm → ∃ c, lookup n to = some c ∧ s a c = true) :
+    importEntries s frm to = .ok to := by
   induction frm with
   | nil => rfl
   | cons p rest ih =>
     obtain ⟨name, a⟩ := p
     simp only [importEntries]
-    rw [h name a List.mem_cons_self]
-    simp only [veq_refl, if_true]
+    obtain ⟨c, hc, hs⟩ := h name a List.mem_cons_self
+    rw [hc]
+    simp only [hs, if_true]
     exact ih (fun n a' hm => h n a' (List.mem_cons_of_mem _ hm))
 
 /-- the same resources arriving a second time (through another include route) are accepted and change nothing -/
-theorem importEntries_twice (frm to r : KVs) (hnd : (frm.map Prod.fst).Nodup) (h : importEntries frm to = .ok r) :
-    importEntries frm r = .ok r := by
+theorem importEntries_twice (frm to r : KVs) (hrefl : ∀ a, s a a = true) (hnd : (frm.map Prod.fst).Nodup)
+    (h : importEntries s frm to = .ok r) : importEntries s frm r = .ok r := by
   apply importEntries_identical_ok
   intro n a hm
   rw [importEntries_lookup frm to r h n]
   cases hl : lookup n to with
   | some c =>
-    simp only
-    have hnc : ¬ (importEntries frm to = .err "conflict") := by rw [h]; intro e; cases e
+    refine ⟨c, rfl, ?_⟩
+    have hnc : ¬ (importEntries s frm to = .err "conflict") := by rw [h]; intro e; cases e
     rw [importEntries_conflict_iff frm to hnd] at hnc
-    by_cases hac : a = c
-    · rw [hac]
-    · exact absurd ⟨n, a, c, hm, hl, hac⟩ hnc
-  | none => exact lookup_of_mem_nodup frm hnd hm
+    cases hs : s a c with
+    | true => rfl
+    | false => exact absurd ⟨n, a, c, hm, hl, hs⟩ hnc
+  | none => exact ⟨a, lookup_of_mem_nodup frm hnd hm, hrefl a⟩
 
 end CV.Include
 
 namespace CV.Include
 open CV CV.Val
+
+variable {s : Val → Val → Bool} {S : String → Val → Val → Bool}
 
 /-! ## the five sections: `importResources` -/
 
@@ -151,7 +155,7 @@ theorem targetSection_congr {k : String} {t t' : KVs} (h : lookup k t' = lookup 
     targetSection k t' = targetSection k t := by
   simp only [targetSection, h]
 
-theorem importResource_frame {src tgt tgt' : KVs} {k k' : String} (h : importResource src tgt k = .ok tgt')
+theorem importResource_frame {src tgt tgt' : KVs} {k k' : String} (h : importResource S src tgt k = .ok tgt')
     (hk : k' ≠ k) : lookup k' tgt' = lookup k' tgt := by
   simp only [importResource] at h
   split at h
@@ -168,7 +172,7 @@ theorem importResource_frame {src tgt tgt' : KVs} {k k' : String} (h : importRes
 theorem importResource_conflict_iff {src tgt : KVs} {k : String}
     (hs : lookup k src = none ∨ lookup k src = some .null ∨ ∃ f, lookup k src = some (.map f) ∧ (f.map Prod.fst).Nodup)
     (ht : ∃ to, targetSection k tgt = some to) :
-    importResource src tgt k = .err "conflict" ↔ ConflictAt src tgt k := by
+    importResource S src tgt k = .err "conflict" ↔ ConflictAt S src tgt k := by
   obtain ⟨to, ht⟩ := ht
   rcases hs with hs | hs | ⟨f, hs, hnd⟩
   · simp only [importResource, hs, ConflictAt]
@@ -182,7 +186,7 @@ theorem importResource_conflict_iff {src tgt : KVs} {k : String}
   · simp only [importResource, hs, ht, ConflictAt]
     constructor
     · intro h
-      have hc : importEntries f to = .err "conflict" := by
+      have hc : importEntries (S k) f to = .err "conflict" := by
         rcases importEntries_outcome f to with ⟨r, hr⟩ | hr
         · rw [hr] at h; cases h
         · exact hr
@@ -196,7 +200,7 @@ theorem importResource_conflict_iff {src tgt : KVs} {k : String}
 theorem importResource_outcome {src tgt : KVs} {k : String}
     (hs : lookup k src = none ∨ lookup k src = some .null ∨ ∃ f, lookup k src = some (.map f) ∧ (f.map Prod.fst).Nodup)
     (ht : ∃ to, targetSection k tgt = some to) :
-    (∃ r, importResource src tgt k = .ok r) ∨ importResource src tgt k = .err "conflict" := by
+    (∃ r, importResource S src tgt k = .ok r) ∨ importResource S src tgt k = .err "conflict" := by
   obtain ⟨to, ht⟩ := ht
   rcases hs with hs | hs | ⟨f, hs, _⟩
   · exact .inl ⟨tgt, by simp only [importResource, hs]⟩
@@ -207,13 +211,13 @@ theorem importResource_outcome {src tgt : KVs} {k : String}
     · rw [hr]; exact .inr rfl
 
 theorem conflictAt_congr {src t t' : KVs} {k : String} (h : lookup k t' = lookup k t) :
-    ConflictAt src t' k ↔ ConflictAt src t k := by
+    ConflictAt S src t' k ↔ ConflictAt S src t k := by
   simp only [ConflictAt, targetSection_congr h]
 
 theorem importKinds_conflict_iff (src : KVs) (hs : WfSource src) :
     ∀ (ks : List String) (tgt : KVs), ks.Nodup → (∀ k, k ∈ ks → k ∈ resourceKinds) →
       (∀ k, k ∈ ks → ∃ to, targetSection k tgt = some to) →
-      (importKinds src ks tgt = .err "conflict" ↔ ∃ k, k ∈ ks ∧ ConflictAt src tgt k)
+      (importKinds S src ks tgt = .err "conflict" ↔ ∃ k, k ∈ ks ∧ ConflictAt S src tgt k)
   | [], tgt, _, _, _ => by simp [importKinds]
   | k :: ks, tgt, hnd, hsub, ht => by
     simp only [List.nodup_cons] at hnd
@@ -230,7 +234,7 @@ theorem importKinds_conflict_iff (src : KVs) (hs : WfSource src) :
         rw [targetSection_congr (hframe k' hk')]
         exact ht k' (List.mem_cons_of_mem _ hk')
       rw [importKinds_conflict_iff src hs ks r hnd.2 (fun k' hk' => hsub k' (List.mem_cons_of_mem _ hk')) ht']
-      have hnok : ¬ ConflictAt src tgt k := by
+      have hnok : ¬ ConflictAt S src tgt k := by
         rw [← importResource_conflict_iff hsk htk, hr]; intro e; cases e
       constructor
       · rintro ⟨k', hk', hc⟩
@@ -246,13 +250,15 @@ theorem importKinds_conflict_iff (src : KVs) (hs : WfSource src) :
 /-- **import_conflict_iff**: importing a validated model into a document is a conflict error exactly when one of
 the five sections defines some name on both sides with non-equal values -/
 theorem import_conflict_iff (src tgt : KVs) (hs : WfSource src) (ht : WfTarget tgt) :
-    importResources src tgt = .err "conflict" ↔ ∃ k, k ∈ resourceKinds ∧ ConflictAt src tgt k :=
+    importResources S src tgt = .err "conflict" ↔ ∃ k, k ∈ resourceKinds ∧ ConflictAt S src tgt k :=
   importKinds_conflict_iff src hs resourceKinds tgt (by decide) (fun _ h => h) ht
 
 end CV.Include
 
 namespace CV.Include
 open CV CV.Val
+
+variable {s : Val → Val → Bool} {S : String → Val → Val → Bool}
 
 /-! ## environment layering -/
 
@@ -352,7 +358,7 @@ theorem plan_ok_fresh (W : World) (wd L : String) (chain : List String) (r : Inc
 overrides — is already in the chain of files being included, the entry is an error -/
 theorem includeOne_cycle_err (W : World) (wd L : String) (env : Env) (chain : List String) (model : KVs) (r : IncCfg)
     (h : ∃ p, p ∈ r.path ∧ localAbs L p ∈ chain) : includeOne W wd L env chain model r = .err "cycle" := by
-  simp only [includeOne, plan_cycle W wd L chain r h, bind_err]
+  simp only [includeOne, plan_cycle W (baseDir wd L) L chain r h, bind_err]
 
 /-- **include_cycle_err**: a document whose first include entry closes a cycle is rejected, whatever the file
 system, the environment files and the other entries are -/
@@ -366,7 +372,7 @@ example (W : World) : applyInclude W "/p" "/p" [] ["/p/compose.yaml"]
     [("include", .seq [.str "/p/compose.yaml"]), ("services", .map [])] = .err "cycle" := by
   apply include_cycle_err W "/p" "/p" [] ["/p/compose.yaml"] _ { path := ["/p/compose.yaml"] } []
   · rfl
-  · exact ⟨"/p/compose.yaml", List.mem_cons_self, by simp [localAbs, isAbs]⟩
+  · exact ⟨"/p/compose.yaml", List.mem_cons_self, by decide⟩
 
 /-! ## which directory the included project is anchored in -/
 
@@ -395,6 +401,8 @@ end CV.Include
 namespace CV.Include
 open CV CV.Val
 
+variable {s : Val → Val → Bool} {S : String → Val → Val → Bool}
+
 /-! ## include = paste -/
 
 theorem resourceOf_congr {m m' : KVs} {k : String} (h : lookup k m' = lookup k m) (n : String) :
@@ -412,7 +420,7 @@ theorem targetSection_lookup {tgt to : KVs} {k : String} (h : targetSection k tg
   · cases h
 
 /-- one section after a successful import: own definition first, else the imported one -/
-theorem importResource_resource {src tgt r : KVs} {k : String} (h : importResource src tgt k = .ok r) (n : String) :
+theorem importResource_resource {src tgt r : KVs} {k : String} (h : importResource S src tgt k = .ok r) (n : String) :
     resourceOf r k n = match resourceOf tgt k n with
       | some v => some v
       | none => resourceOf src k n := by
@@ -444,8 +452,10 @@ end CV.Include
 namespace CV.Include
 open CV CV.Val
 
+variable {s : Val → Val → Bool} {S : String → Val → Val → Bool}
+
 theorem importKinds_paste (src : KVs) :
-    ∀ (ks : List String) (tgt r : KVs), ks.Nodup → importKinds src ks tgt = .ok r →
+    ∀ (ks : List String) (tgt r : KVs), ks.Nodup → importKinds S src ks tgt = .ok r →
       (∀ k, k ∈ ks → ∀ n, resourceOf r k n = match resourceOf tgt k n with
           | some v => some v
           | none => resourceOf src k n) ∧
@@ -472,7 +482,7 @@ theorem importKinds_paste (src : KVs) :
       rw [ih2 k hk', importResource_frame h0 hne]
 
 /-- a successful `importResources` is the section-wise union (own definitions first); nothing else moves -/
-theorem importResources_paste (src tgt r : KVs) (h : importResources src tgt = .ok r) :
+theorem importResources_paste (src tgt r : KVs) (h : importResources S src tgt = .ok r) :
     (∀ k, k ∈ resourceKinds → ∀ n, resourceOf r k n = match resourceOf tgt k n with
         | some v => some v
         | none => resourceOf src k n) ∧
@@ -480,11 +490,11 @@ theorem importResources_paste (src tgt r : KVs) (h : importResources src tgt = .
   importKinds_paste src resourceKinds tgt r (by decide) h
 
 /-- importing the included models one after the other -/
-def importAll : List KVs → KVs → Out KVs
+def importAll (S : String → Val → Val → Bool) : List KVs → KVs → Out KVs
   | [], model => .ok model
-  | im :: ims, model => (importResources im model).bind (importAll ims)
+  | im :: ims, model => (importResources S im model).bind (importAll S ims)
 
-theorem importAll_paste : ∀ (ims : List KVs) (model r : KVs), importAll ims model = .ok r →
+theorem importAll_paste : ∀ (ims : List KVs) (model r : KVs), importAll S ims model = .ok r →
     (∀ k, k ∈ resourceKinds → ∀ n, resourceOf r k n = pastedResource model ims k n) ∧
     (∀ k, k ∉ resourceKinds → lookup k r = lookup k model)
   | [], model, r, h => by
@@ -509,7 +519,7 @@ theorem importAll_paste : ∀ (ims : List KVs) (model r : KVs), importAll ims mo
 /-- `includeAll` = load every entry on its own, then import the results in order (on success) -/
 theorem includeAll_split (W : World) (wd L : String) (env : Env) (chain : List String) :
     ∀ (cfgs : List IncCfg) (model r : KVs), includeAll W wd L env chain cfgs model = .ok r →
-      ∃ ims, subLoads W wd L env chain cfgs = .ok ims ∧ importAll ims model = .ok r
+      ∃ ims, subLoads W wd L env chain cfgs = .ok ims ∧ importAll (sameResource W (baseDir wd L)) ims model = .ok r
   | [], model, r, h => by
     simp only [includeAll] at h; cases h
     exact ⟨[], rfl, rfl⟩
@@ -555,6 +565,8 @@ end CV.Include
 namespace CV.Include
 open CV CV.Val
 
+variable {s : Val → Val → Bool} {S : String → Val → Val → Bool}
+
 /-! ## where a relative `env_file` is looked up (the quirk behind finding `nested-relative-env_file`) -/
 
 /-- a relative path handed to the operating system is resolved against the process working directory -/
@@ -583,6 +595,8 @@ end CV.Include
 
 namespace CV.Include
 open CV CV.Val
+
+variable {s : Val → Val → Bool} {S : String → Val → Val → Bool}
 
 /-! ## nested includes: the result depends on the sub-load only through its answers -/
 
@@ -619,11 +633,12 @@ theorem includeAll_mono (W : World) (lm : String → String → List String → 
     obtain ⟨pl, hp, h0⟩ := bind_eq_ok h0
     obtain ⟨env', he, h0⟩ := bind_eq_ok h0
     obtain ⟨im, hl, h0⟩ := bind_eq_ok h0
-    have hp' : plan (W.withLoad lm) wd L chain c = .ok pl := hp
-    have he' : includeEnv (W.withLoad lm) wd pl.projDir env c.envFile = .ok env' := by
+    have hp' : plan (W.withLoad lm) (baseDir wd L) L chain c = .ok pl := hp
+    have he' : includeEnv (W.withLoad lm) (baseDir wd L) pl.projDir env c.envFile = .ok env' := by
       rw [includeEnv_withLoad]; exact he
     have hl' : (W.withLoad lm).loadModel pl.relwd pl.projDir pl.paths env' chain = .ok im := hle _ _ _ _ _ _ hl
-    simp only [hp', he', hl', h0, bind_ok]
+    have hs : sameResource (W.withLoad lm) (baseDir wd L) = sameResource W (baseDir wd L) := rfl
+    simp only [hp', he', hl', hs, h0, bind_ok]
     exact includeAll_mono W lm hle wd L env chain cs m1 r h1
 
 /-- **include_nested_mono**: if `ApplyInclude` succeeds with some sub-load, it succeeds with the same result with any
@@ -638,5 +653,187 @@ theorem include_nested_mono (W : World) (lm : String → String → List String 
   obtain ⟨m, hm, h⟩ := bind_eq_ok h
   simp only [hc, bind_ok, includeAll_mono W lm hle wd L env chain cfgs model m hm]
   exact h
+
+end CV.Include
+
+namespace CV.Include
+open CV CV.Val
+
+/-! ## `sameResource` (the test used inside `ApplyInclude` since fix 38d282a) -/
+
+/-- a definition is the same as itself -/
+theorem sameResource_refl (W : World) (base k : String) (a : Val) : sameResource W base k a a = true := by
+  simp [sameResource, veq_refl]
+
+/-- deeply equal definitions are the same -/
+theorem sameResource_of_eq (W : World) (base k : String) (a c : Val) (h : a = c) : sameResource W base k a c = true := by
+  subst h; exact sameResource_refl W base k a
+
+/-- **identical after resolution ⇒ accepted**: two definitions whose relative paths resolve, against the including
+project's directory, to the same resource are the same — the case of one file reached through two include routes -/
+theorem sameResource_of_resolved (W : World) (base k : String) (a c x : Val)
+    (ha : W.resolveRes base k a = some x) (hc : W.resolveRes base k c = some x) : sameResource W base k a c = true := by
+  simp [sameResource, ha, hc, veq_refl]
+
+/-- … and only those: if the definitions are the same, they are equal or their resolved forms are -/
+theorem sameResource_iff (W : World) (base k : String) (a c : Val) :
+    sameResource W base k a c = true ↔
+      a = c ∨ ∃ x, W.resolveRes base k a = some x ∧ W.resolveRes base k c = some x := by
+  simp only [sameResource, Bool.or_eq_true, veq_iff]
+  constructor
+  · rintro (h | h)
+    · exact .inl h
+    · cases ha : W.resolveRes base k a with
+      | none => simp [ha] at h
+      | some x =>
+        cases hc : W.resolveRes base k c with
+        | none => simp [ha, hc] at h
+        | some y =>
+          simp only [ha, hc, veq_iff] at h
+          exact .inr ⟨x, rfl, by rw [h]⟩
+  · rintro (h | ⟨x, ha, hc⟩)
+    · exact .inl h
+    · right; simp [ha, hc, veq_refl]
+
+/-- the same included model imported a second time inside one `ApplyInclude` (two routes) is accepted and changes nothing -/
+theorem import_twice_sameResource (W : World) (base k : String) (frm to r : KVs) (hnd : (frm.map Prod.fst).Nodup)
+    (h : importEntries (sameResource W base k) frm to = .ok r) : importEntries (sameResource W base k) frm r = .ok r :=
+  importEntries_twice frm to r (sameResource_refl W base k) hnd h
+
+end CV.Include
+
+namespace CV.Include
+open CV CV.Val
+
+variable {s : Val → Val → Bool} {S : String → Val → Val → Bool}
+
+/-! ## `include.go` has no panic of its own (after fixes 03de7c5 and 53f12a7) -/
+
+/-- the outcome is not a panic -/
+def NoPanic {α} (x : Out α) : Prop := ∀ site, x ≠ .panic site
+
+theorem noPanic_ok {α} (a : α) : NoPanic (Out.ok a) := fun _ h => by cases h
+theorem noPanic_err {α} (e : String) : NoPanic (Out.err e : Out α) := fun _ h => by cases h
+
+theorem noPanic_bind {α β} {x : Out α} {f : α → Out β} (hx : NoPanic x) (hf : ∀ a, NoPanic (f a)) :
+    NoPanic (x.bind f) := by
+  cases x with
+  | ok a => exact hf a
+  | err e => exact noPanic_err e
+  | panic site => exact absurd rfl (hx site)
+
+theorem strList_noPanic (v : Option Val) : NoPanic (strList v) := by
+  unfold strList
+  split
+  · exact noPanic_ok _
+  · exact noPanic_ok _
+  · exact noPanic_ok _
+  · split
+    · exact noPanic_ok _
+    · exact noPanic_err _
+  · exact noPanic_err _
+
+theorem cfgOf_noPanic (v : Val) : NoPanic (cfgOf v) := by
+  unfold cfgOf
+  split
+  · exact noPanic_ok _
+  · exact noPanic_ok _
+  · rename_i kvs
+    have hp := strList_noPanic (lookup "path" kvs)
+    split
+    · split
+      · exact noPanic_bind (strList_noPanic _) (fun _ => noPanic_ok _)
+      · exact noPanic_bind (strList_noPanic _) (fun _ => noPanic_ok _)
+      · exact noPanic_bind (strList_noPanic _) (fun _ => noPanic_ok _)
+      · exact noPanic_err _
+    · exact noPanic_err _
+    · rename_i site h; exact absurd h (hp site)
+  · exact noPanic_err _
+
+theorem cfgsOf_noPanic : ∀ l, NoPanic (cfgsOf l)
+  | [] => noPanic_ok _
+  | v :: r => by
+    simp only [cfgsOf]
+    exact noPanic_bind (cfgOf_noPanic v) (fun _ => noPanic_bind (cfgsOf_noPanic r) (fun _ => noPanic_ok _))
+
+theorem loadIncludeConfig_noPanic (v : Option Val) : NoPanic (loadIncludeConfig v) := by
+  unfold loadIncludeConfig
+  split
+  · exact noPanic_ok _
+  · exact noPanic_ok _
+  · exact cfgsOf_noPanic _
+  · exact noPanic_err _
+
+theorem importEntries_noPanic (frm to : KVs) : NoPanic (importEntries s frm to) := by
+  rcases importEntries_outcome (s := s) frm to with ⟨r, hr⟩ | hr
+  · rw [hr]; exact noPanic_ok _
+  · rw [hr]; exact noPanic_err _
+
+theorem importResource_noPanic (src tgt : KVs) (k : String) : NoPanic (importResource S src tgt k) := by
+  unfold importResource
+  split
+  · exact noPanic_ok _
+  · exact noPanic_ok _
+  · split
+    · exact noPanic_err _
+    · split
+      · exact noPanic_bind (importEntries_noPanic _ _) (fun _ => noPanic_ok _)
+      · exact noPanic_err _
+
+theorem importKinds_noPanic (src : KVs) : ∀ ks tgt, NoPanic (importKinds S src ks tgt)
+  | [], _ => noPanic_ok _
+  | k :: ks, tgt => by
+    simp only [importKinds]
+    exact noPanic_bind (importResource_noPanic src tgt k) (fun t => importKinds_noPanic src ks t)
+
+theorem plan_noPanic (W : World) (wd L : String) (chain : List String) (r : IncCfg) : NoPanic (plan W wd L chain r) := by
+  unfold plan
+  split
+  · exact noPanic_ok _
+  · simp only
+    split
+    · exact noPanic_err _
+    · exact noPanic_ok _
+
+theorem envFilesExplicit_noPanic (W : World) (wd : String) : ∀ ef, NoPanic (envFilesExplicit W wd ef)
+  | [] => noPanic_ok _
+  | f :: rest => by
+    simp only [envFilesExplicit]
+    split
+    · exact noPanic_bind (envFilesExplicit_noPanic W wd rest) (fun _ => noPanic_ok _)
+    · split
+      · exact noPanic_err _
+      · split
+        · exact noPanic_bind (envFilesExplicit_noPanic W wd rest) (fun _ => noPanic_ok _)
+        · exact noPanic_err _
+
+theorem envFiles_noPanic (W : World) (wd pd : String) (ef : List String) : NoPanic (envFiles W wd pd ef) := by
+  unfold envFiles
+  split
+  · exact noPanic_ok _
+  · exact envFilesExplicit_noPanic W wd _
+
+/-- **include_never_panics**: whatever the document, the file system and the chain are, `ApplyInclude` does not
+panic unless `GetEnvFromFile` or the sub-load does: malformed `include` sections, non-mapping sections on either
+side of the import, missing files and cycles are all errors -/
+theorem include_never_panics (W : World)
+    (henv : ∀ e fs, NoPanic (W.envFromFile e fs)) (hload : ∀ a b c d e, NoPanic (W.loadModel a b c d e))
+    (wd L : String) (env : Env) (chain : List String) (model : KVs) :
+    NoPanic (applyInclude W wd L env chain model) := by
+  have hone : ∀ m r, NoPanic (includeOne W wd L env chain m r) := by
+    intro m r
+    simp only [includeOne]
+    refine noPanic_bind (plan_noPanic _ _ _ _ _) (fun pl => ?_)
+    refine noPanic_bind ?_ (fun env' => ?_)
+    · simp only [includeEnv]
+      exact noPanic_bind (envFiles_noPanic _ _ _ _) (fun efs => noPanic_bind (henv _ _) (fun _ => noPanic_ok _))
+    · exact noPanic_bind (hload _ _ _ _ _) (fun im => importKinds_noPanic im _ _)
+  have hall : ∀ cfgs m, NoPanic (includeAll W wd L env chain cfgs m) := by
+    intro cfgs
+    induction cfgs with
+    | nil => intro m; exact noPanic_ok _
+    | cons r rs ih => intro m; simp only [includeAll]; exact noPanic_bind (hone m r) ih
+  simp only [applyInclude]
+  exact noPanic_bind (loadIncludeConfig_noPanic _) (fun cfgs => noPanic_bind (hall cfgs model) (fun _ => noPanic_ok _))
 
 end CV.Include
